@@ -56,6 +56,8 @@ type SSOCase struct {
 	// provider lookup fails in that way ("" = it does not)
 	FaultKind   string `json:"fault_kind,omitempty"`
 	LookupFault string `json:"lookup_fault,omitempty"`
+	// KeyFault: the response-signing key lookup fails in that way while the request is served ("" = it does not)
+	KeyFault string `json:"key_fault,omitempty"`
 	// PersistDelayMs: the storage takes that long to persist the request (it succeeds)
 	PersistDelayMs int `json:"persist_delay_ms,omitempty"`
 }
